@@ -124,17 +124,27 @@ class Cron(addons.AddonMainTask, block.SBlock):
         reset = Flag(False)
         reload = Flag(True)     # reload will also initialize the index
         short_sleep = False     # alternative sleep function used => do not compute overhead
+        recalc_all = False      # recalculate all blocks after a reload or reset
         while True:
             if reload.test_clear():
                 timetable = sorted(_SET24.union(self._alarms))
                 tlen = len(timetable)
                 self.log_debug("time schedule reloaded")
                 index = None
+                recalc_all = True
 
             nowdt = self.dtnow()
             nowt = nowdt.time()
             if index is None:
                 index = bisect.bisect_left(timetable, nowt) % tlen
+            if recalc_all:
+                # The schedule continues with the first alarm not before 'nowdt'. Update
+                # the blocks for exactly the same time, otherwise an alarm falling between
+                # the time a block was last recalculated and 'nowdt' would be missed.
+                recalc_all = False
+                for blk in set().union(*self._alarms.values()):    # all blocks
+                    assert hasattr(blk, 'recalc')
+                    blk.recalc(nowdt)
             wakeup = timetable[index]
             self.log_debug("wakeup time: %s", wakeup)
 
@@ -216,9 +226,7 @@ class Cron(addons.AddonMainTask, block.SBlock):
                         ):
                     self.log_warning("Apparently a DST (summer time) clock change has occured.")
                 self.log_warning("Resetting due to a time tracking problem.")
-                for blk in set().union(*self._alarms.values()):    # all blocks
-                    assert hasattr(blk, 'recalc')
-                    blk.recalc(nowdt)
+                recalc_all = True
                 index = None
                 continue
             if reload:
